@@ -22,6 +22,9 @@ pub struct Cfg {
     /// set the public field directly instead of the clamping builder
     #[serde(default)]
     pub rate_raw: bool,
+    /// non-finite rates cannot travel in JSON: "nan", "inf", "-inf" (implies rate_raw)
+    #[serde(default)]
+    pub rate_special: String,
     #[serde(default, rename = "unsafe")]
     pub unsafe_: bool,
     #[serde(default)]
@@ -71,7 +74,13 @@ pub fn build_generator(cfg: &Cfg, seed: Option<u64>) -> Generator {
             .collect();
         g = g.with_mutators(ms);
     }
-    if cfg.rate_raw {
+    if !cfg.rate_special.is_empty() {
+        g.mutation_rate = match cfg.rate_special.as_str() {
+            "nan" => f64::NAN,
+            "inf" => f64::INFINITY,
+            _ => f64::NEG_INFINITY,
+        };
+    } else if cfg.rate_raw {
         g.mutation_rate = cfg.rate;
     } else {
         g = g.with_mutation_rate(cfg.rate);
